@@ -351,8 +351,15 @@ func runC18(c *core.Ctx) {
 			AssumeHeld: map[string]map[string]int8{blT + ".Routine": {blT + ".Mu": core.LWrite}},
 		}
 		res := core.RunLockset(p, spec)
-		n := reportLockset(c, res, []lockException{{"New", "BaseLeecher.Peers", "constructor"}}, nil)
-		c.ExpectAtLeast("base-leecher access groups", n, 6)
+		reportLockset(c, res, []lockException{{"New", "BaseLeecher.Peers", "constructor"}}, nil)
+		// vacuity only: each guarded field is accessed somewhere (every access is an obligation above)
+		perField := map[string]int{}
+		for _, a := range res.Accesses {
+			perField[a.Field]++
+		}
+		for _, fld := range []string{c.Fld(blT + ".Peers"), c.Fld(blT + ".Terminated")} {
+			c.ExpectAtLeast("accesses of "+short(fld), perField[fld], 1)
+		}
 		rt := c.Fn(blT + ".Routine")
 		nCalls := 0
 		for _, ci := range res.CallIns[rt] {
